@@ -1,5 +1,6 @@
 import Hub.Model.Bisect
 import Hub.Generated.ErrHandler
+import Hub.Generated.Jobs
 /-!
 # C17 — per-entity error handling isolates failing entities
 
@@ -302,5 +303,15 @@ theorem cur_forgets_error :
     let r := runCur (permSink (fun e : Nat => e == 1)) 0 [[1], [2]] ({ sink := () } : St Nat Unit).reset
     r.1.reported = [1] ∧ r.1.lastErr = false := by
   simp [runCur, runG, procCur, procG, permSink, St.reset, St.acceptCur, St.report, handle]
+
+
+/-- `job.Run`: a trigger first competes for the job's ticket and leaves when it is refused; only the ticket holder
+resets the error-handling state (rejection counter, bisection depth, last error) and runs the pipeline — a trigger
+that arrives while the job is running cannot disturb the run in progress (the run the theorems above are about). -/
+theorem facts_reset_under_ticket :
+    Hub.Facts.Jobs.skeleton_Run =
+      ["j.runner.raffle.borrowTicket", "if ticket == nil {", "j.pipeline.isFullSync", "if j.pipeline.isFullSync() {", "return", "}", "return", "}",
+       "j.instrumentErrorHandling", "defer {", "func {", "j.handleJobError", "}", "}", "defer {", "j.runner.raffle.returnTicket", "}",
+       "j.pipeline.isFullSync", "j.pipeline.sync"] := by decide
 
 end Hub.C17
